@@ -22,7 +22,7 @@ from .. import core, tplgen
 from .. import render_common as rc
 
 PROP = "C04"
-THEOREMS = ["collect_eq_firstOcc", "dedupe_eq_firstOcc", "inline_js_exactly_once", "inline_css_exactly_once",
+THEOREMS = ["no_placeholder_survives_component_trees", "collect_eq_firstOcc", "dedupe_eq_firstOcc", "inline_js_exactly_once", "inline_css_exactly_once",
             "inline_js_in_order_of_first_appearance", "media_js_exactly_once", "media_css_exactly_once",
             "fragment_declares_same_set", "marker_roundtrip", "not_marker_roundtrip_unicode", "collect_idempotent"]
 
